@@ -217,6 +217,11 @@ def c05_5(ctx):
         if key is not None:
             if isinstance(key, ast.Name):
                 inner = nested.get(key.id)
+                if inner is None:
+                    r_ = ctx.p.resolve_global(f.module, key.id)
+                    inner = getattr(r_, "node", None) if r_ is not None and hasattr(r_, "node") else None
+                if inner is None:
+                    raise Undecided("solve_for_constraints orders by `%s`, which this rule cannot find" % key.id)
                 body = norm(inner.body[-1]) if inner is not None else ""
                 good = "int(" in body and ".name" in body
             elif isinstance(key, ast.Lambda):
